@@ -121,6 +121,58 @@ def _pr(self, codemod_id, results):
               "files": [_os.path.relpath(str(fc.file_path), str(self.directory)) for fc in results]})
     return _orig_pr(self, codemod_id, iter(results))
 _cx.CodemodExecutionContext.process_results = _pr
+# Directory enumeration order under the project root is an INPUT of the run (C11_ENUM): what os.scandir / os.listdir return
+# there (hence os.walk, glob, Path.iterdir/glob/rglob) is the real content, sorted by name and then reversed / rotated /
+# shuffled with a seed.  "natural" leaves the file system's own order.
+_ENUM = _os.environ.get("C11_ENUM", "natural")
+_ROOT = _os.environ.get("C11_ROOT")
+if _ENUM != "natural" and _ROOT:
+    import random as _rnd
+    _real_scandir, _real_listdir = _os.scandir, _os.listdir
+    def _where(path):
+        try:
+            q = _os.fspath(path)
+            if isinstance(q, bytes):
+                q = _os.fsdecode(q)
+            ap = _os.path.abspath(q)
+            if ap == _ROOT or ap.startswith(_ROOT + _os.sep):
+                return _os.path.relpath(ap, _ROOT)
+        except Exception:
+            pass
+        return None
+    def _permute(items, key, where):
+        items = sorted(items, key=key)
+        if _ENUM == "reverse":
+            return items[::-1]
+        if _ENUM == "rotate":
+            k = (len(items) // 2) or 1
+            return items[k:] + items[:k]
+        if _ENUM.startswith("shuffle"):
+            _rnd.Random(_ENUM + "|" + where).shuffle(items)
+        return items
+    class _Scan:
+        def __init__(self, path, where):
+            with _real_scandir(path) as it:
+                self._it = iter(_permute(list(it), lambda e: _os.fsdecode(e.name) if isinstance(e.name, bytes) else e.name, where))
+        def __iter__(self):
+            return self
+        def __next__(self):
+            return next(self._it)
+        def __enter__(self):
+            return self
+        def __exit__(self, *a):
+            self.close()
+        def close(self):
+            self._it = iter(())
+    def _scandir(path="."):
+        w = None if isinstance(path, int) else _where(path)
+        return _real_scandir(path) if w is None else _Scan(path, w)
+    def _listdir(path="."):
+        w = None if isinstance(path, int) else _where(path)
+        out = _real_listdir(path)
+        return out if w is None else _permute(out, lambda n: _os.fsdecode(n) if isinstance(n, bytes) else n, w)
+    _os.scandir = _scandir
+    _os.listdir = _listdir
 _orig_ffd = _cx.files_for_directory
 def _ffd(parent):
     out = _orig_ffd(parent)
@@ -219,7 +271,9 @@ def do_run(ctx, cfg):
         args += ["--codemod-include", ",".join(cfg.get("codemods") or CODEMODS)]
     if cfg.get("w") is not None:
         args += ["--max-workers", str(cfg["w"])]
-    r = core.run_cli(args, env={"C11_LOG": str(log), "C11_DELAYS": json.dumps(cfg.get("delays") or {})},
+    args += cfg.get("argv_extra") or []
+    r = core.run_cli(args, env={"C11_LOG": str(log), "C11_DELAYS": json.dumps(cfg.get("delays") or {}),
+                                "C11_ENUM": cfg.get("enum") or "natural", "C11_ROOT": os.path.abspath(str(proj))},
                      hashseed=str(cfg.get("seed", 0)), preload=preload, timeout=300)
     events = [json.loads(l) for l in log.read_text().splitlines()] if log.exists() else []
     rep = None
@@ -283,7 +337,7 @@ def report_of(res, cid):
 
 
 def describe(cfg):
-    return {k: cfg.get(k) for k in ("name", "w", "delay_kind", "seed", "order_kind", "only", "sast")}
+    return {k: cfg.get(k) for k in ("name", "w", "delay_kind", "seed", "order_kind", "enum", "argv_extra", "only", "sast")}
 
 
 def replay_payload(cfg, **kw):
@@ -292,7 +346,9 @@ def replay_payload(cfg, **kw):
                      (["--sonar-issues-json", "<issues>"] if cfg.get("sast") else
                       ["--codemod-include", ",".join(cfg.get("codemods") or CODEMODS)])),
             "codemods": cfg.get("codemods"),
-            "env": {"PYTHONHASHSEED": str(cfg.get("seed", 0)), "C11_DELAYS": cfg.get("delays") or {}},
+            "argv_extra": cfg.get("argv_extra") or [],
+            "env": {"PYTHONHASHSEED": str(cfg.get("seed", 0)), "C11_DELAYS": cfg.get("delays") or {},
+                    "C11_ENUM": cfg.get("enum") or "natural"},
             "issues": cfg.get("issues"), **kw}
 
 
@@ -321,10 +377,10 @@ def project_configs(ctx, tag, proj, quick):
     step = 0.02 if len(py) > 8 else 0.03
     cfgs = []
 
-    def add(name, w=1, delay_kind="none", seed=0, order_kind="natural", order=None, step=step):
+    def add(name, w=1, delay_kind="none", seed=0, order_kind="natural", order=None, step=step, enum="natural"):
         cfgs.append({"name": f"{tag}_{name}", "project": tag, "files": files, "order": order or natural, "w": w,
                      "delay_kind": delay_kind, "delays": delay_schedule(rng, delay_kind, py, step), "seed": seed,
-                     "order_kind": order_kind, "role": "perturbed"})
+                     "order_kind": order_kind, "enum": enum, "role": "perturbed"})
 
     add("base")
     cfgs[-1]["role"] = "base"
@@ -337,9 +393,16 @@ def project_configs(ctx, tag, proj, quick):
     for s in seeds:
         add(f"seed{s}", seed=s)
         add(f"seed{s}_w4", seed=s, w=4, delay_kind="random")
-    orders = [("reversed", list(reversed(natural))), ("sorted", sorted(natural)), ("shuffled", rng.sample(natural, len(natural)))]
+    # directory enumeration order (controlled: the scratch file system's readdir order does not follow creation order)
+    # "sorted" and "reverse" always differ from each other (the root has >= 2 entries), whatever the file system's own order is
+    for e in (["reverse", "sorted", "shuffle1"] if quick else ["reverse", "sorted", "shuffle1", "shuffle2", "rotate"]):
+        add(f"enum_{e}", enum=e)
     if not quick:
-        orders += [("shuffled2", rng.sample(natural, len(natural))), ("rsorted", sorted(natural, reverse=True))]
+        add("enum_shuffle3_w4", enum="shuffle3", w=4, delay_kind="random", seed=2)
+    orders = [("reversed", list(reversed(natural)))]
+    if not quick:
+        orders += [("sorted", sorted(natural)), ("shuffled", rng.sample(natural, len(natural))),
+                   ("shuffled2", rng.sample(natural, len(natural))), ("rsorted", sorted(natural, reverse=True))]
     for i, (ok, order) in enumerate(orders):
         add(f"order_{ok}", order_kind=ok, order=order, w=(4 if i == 2 else 1), delay_kind=("random" if i == 2 else "none"),
             seed=(5 if i == 1 else 0))
@@ -348,6 +411,54 @@ def project_configs(ctx, tag, proj, quick):
         cfgs.append({"name": f"{tag}_only{i}", "project": tag, "files": {f: files[f]}, "order": [f], "w": 1, "delay_kind": "none",
                      "delays": {}, "seed": 0, "order_kind": "natural", "role": "only", "only": f})
     return cfgs
+
+
+SAST_CODEMOD = "sonar:python/literal-or-new-object-identity"
+
+
+def sast_issue_configs(ctx, proj, quick):
+    """SAST-driven (Remediation) codemod with findings in every file, default selection, delayed.  Two families:
+    `ps` without any path option, `pso` with one (context.filter_paths takes different branches)."""
+    rng = ctx.rng
+    files = {}
+    for i, (rel, text) in enumerate(proj["py"].items()):
+        if text.startswith("def broken("):
+            continue
+        if not re.search(r"(?<=q )is( not)?(?= [\[{])", text):
+            text += f"z{i} = q is [{i}]\n"
+        files[rel] = text
+    issues, n = {"issues": []}, 0
+    for rel, text in sorted(files.items(), reverse=True):          # the issues file has its own order, unrelated to any of the others
+        for ln, line in enumerate(text.splitlines(), 1):
+            m = re.search(r"(?<=q )is( not)?(?= [\[{])", line)   # Sonar reports the operator
+            if m:
+                n += 1
+                issues["issues"].append({"key": f"K{n}", "rule": "python:S5796", "status": "OPEN", "component": f"proj:{rel}",
+                                         "message": "identity", "textRange": {"startLine": ln, "endLine": ln,
+                                                                                "startOffset": m.start(), "endOffset": m.end()}})
+    out = []
+
+    def add(tag, name, role="perturbed", w=1, delay_kind="none", seed=0, enum="natural", extra=None):
+        out.append({"name": f"{tag}_{name}", "project": tag, "files": files, "order": list(files), "w": w, "delay_kind": delay_kind,
+                    "delays": delay_schedule(rng, delay_kind, list(files), 0.03), "seed": seed, "order_kind": "natural", "enum": enum,
+                    "role": role, "sast": True, "issues": issues, "with_issues": True, "argv_extra": extra or []})
+    add("ps", "base", role="base")
+    add("ps", "seed1_w4_random", w=4, delay_kind="random", seed=1)
+    for sd in ((2, 3) if quick else (2, 3, 4, 5, 6)):     # e.g. the set-ordered default include patterns reach filter_paths only here
+        add("ps", f"seed{sd}", seed=sd)
+    add("ps", "enum_reverse", enum="reverse")
+    add("ps", "enum_sorted", enum="sorted")
+    opt = ["--path-exclude", "no_such_dir/**"]
+    add("pso", "base", role="base", extra=opt)
+    add("pso", "enum_reverse", enum="reverse", extra=opt)
+    add("pso", "enum_sorted", enum="sorted", extra=opt)
+    if not quick:
+        add("ps", "enum_rotate_w4", enum="rotate", w=4, delay_kind="reversed")
+        add("ps", "enum_shuffle1", enum="shuffle1")
+        add("ps", "enum_shuffle2", enum="shuffle2")
+        add("pso", "enum_shuffle1_w4", enum="shuffle1", w=4, delay_kind="random", extra=opt)
+        add("pso", "seed3", seed=3, extra=opt)
+    return files, out
 
 
 def sast_configs(ctx, tag, proj, seeds, with_issues):
@@ -440,6 +551,9 @@ def run(ctx: core.Ctx):
         for j, perm in enumerate(itertools.permutations(range(3))):
             cfgs.append({"name": f"ex_perm{j}", "project": "ex", "files": exfiles, "order": list(exfiles), "w": 3, "delay_kind": "exhaustive",
                          "delays": {expy[i]: 0.06 * (perm[i] + 1) for i in range(3)}, "seed": 0, "order_kind": "natural", "role": "perturbed"})
+        for e in ("reverse", "sorted"):
+            cfgs.append({"name": f"ex_enum_{e}", "project": "ex", "files": exfiles, "order": list(exfiles), "w": 1, "delay_kind": "none",
+                         "delays": {}, "seed": 0, "order_kind": "natural", "enum": e, "role": "perturbed"})
         for i, f in enumerate(expy):
             cfgs.append({"name": f"ex_only{i}", "project": "ex", "files": {f: exfiles[f]}, "order": [f], "w": 1, "delay_kind": "none",
                          "delays": {}, "seed": 0, "order_kind": "natural", "role": "only", "only": f})
@@ -462,12 +576,15 @@ def run(ctx: core.Ctx):
     for name, w, dk, seed, ok, order in [("base", 1, "none", 0, "natural", pd_natural), ("w4_reversed", 4, "reversed", 0, "natural", pd_natural),
                                          ("w2_random_seed2", 2, "random", 2, "natural", pd_natural),
                                          ("w16_increasing_seed3", 16, "increasing", 3, "natural", pd_natural),
-                                         ("order_reversed", 1, "none", 0, "reversed", list(reversed(pd_natural)))] + \
+                                         ("order_reversed", 1, "none", 0, "reversed", list(reversed(pd_natural))),
+                                         ("enum_reverse", 1, "none", 0, "natural", pd_natural),
+                                         ("enum_sorted", 1, "none", 0, "natural", pd_natural)] + \
             ([] if quick else [("w3_random_seed5_shuffled", 3, "random", 5, "shuffled", rng.sample(pd_natural, len(pd_natural))),
                                ("seed4", 1, "none", 4, "natural", pd_natural)]):
         cfgs.append({"name": f"pd_{name}", "project": "pd", "files": pd_files, "order": order, "w": w, "delay_kind": dk,
                      "delays": delay_schedule(rng, dk, list(pd_py), 0.04), "seed": seed, "order_kind": ok,
-                     "role": "base" if name == "base" else "perturbed", "codemods": PD_CODEMODS})
+                     "role": "base" if name == "base" else "perturbed", "codemods": PD_CODEMODS,
+                     "enum": name[len("enum_"):] if name.startswith("enum_") else "natural"})
     # in-flight witness project: many files, small bound, every task sleeps
     wproj = gen_project(rng, wit["n_files"], broken=False)
     projects["wit"] = wproj
@@ -476,6 +593,9 @@ def run(ctx: core.Ctx):
         cfgs.append({"name": f"wit_w{w}", "project": "wit", "files": wfiles, "order": list(wfiles), "w": w, "delay_kind": "uniform",
                      "delays": {p: wit["delay"] for p in wfiles}, "seed": 0, "order_kind": "natural",
                      "role": "base" if w == wit["w"] else "perturbed"})
+    for e in ("reverse", "sorted"):
+        cfgs.append({"name": f"wit_enum_{e}", "project": "wit", "files": wfiles, "order": list(wfiles), "w": wit["w"], "delay_kind": "uniform",
+                     "delays": {p: wit["delay"] for p in wfiles}, "seed": 0, "order_kind": "natural", "enum": e, "role": "perturbed"})
     if not quick:
         cfgs.append({"name": "wit_default", "project": "wit", "files": wfiles, "order": list(wfiles), "w": None, "delay_kind": "uniform",
                      "delays": {p: wit["delay"] for p in wfiles}, "seed": 0, "order_kind": "natural", "role": "perturbed"})
@@ -483,7 +603,10 @@ def run(ctx: core.Ctx):
     if not quick:
         sast_seeds = sorted(set(sast_seeds + [5, 6, 7, 8, 9]))
     cfgs += sast_configs(ctx, "p0", projects["p0"], sast_seeds, with_issues=False)
-    cfgs += sast_configs(ctx, "p0", projects["p0"], sast_seeds[:2] if quick else sast_seeds[:4], with_issues=True)
+    sfiles, scfgs = sast_issue_configs(ctx, projects["p0"], quick)
+    projects["ps"] = {"py": sfiles, "other": {}, "kinds": {}}
+    projects["pso"] = {"py": sfiles, "other": {}, "kinds": {}}
+    cfgs += scfgs
 
     with concurrent.futures.ThreadPoolExecutor(max_workers=min(12, core.NCPU)) as ex:
         results = list(ex.map(lambda c: do_run(ctx, c), cfgs))
@@ -502,13 +625,15 @@ def run(ctx: core.Ctx):
         observed_classes.add(cls)
         ctx.violation(cls, what, payload)
 
-    # ---- 1. constancy over w, schedules, hash seeds, creation orders ------------------------------------------------
+    # ---- 1. constancy over w, schedules, hash seeds, creation orders, enumeration orders ------------------------------------
+    enum_orders = {}
     for tag in projects:
         base = next((r for r in results if r["cfg"]["project"] == tag and r["cfg"]["role"] == "base"), None)
         if base is None:
             continue
         ref = (norm_report(base["report"]), base["tree"])
         failing = []
+        seen_enums = set()
         for r in results:
             c = r["cfg"]
             if c["project"] != tag or c["role"] not in ("perturbed", "base"):
@@ -517,23 +642,36 @@ def run(ctx: core.Ctx):
             ctx.count(f"delays:{c['delay_kind']}")
             ctx.count(f"seed:{c['seed']}")
             ctx.count(f"creation_order:{c['order_kind']}")
+            ctx.count(f"enumeration_mode:{c.get('enum') or 'natural'}")
+            en = next((tuple(e["files"]) for e in r["events"] if e["ev"] == "enum"), None)
+            if en is not None:
+                seen_enums.add(en)
             obs = (norm_report(r["report"]), r["tree"])
             if obs != ref:
                 dims = [d for d, on in (("hashseed", c["seed"] != base["cfg"]["seed"]), ("creation_order", c["order_kind"] != "natural"),
+                                        ("enumeration_order", (c.get("enum") or "natural") != (base["cfg"].get("enum") or "natural")),
                                         ("schedule", c["w"] != base["cfg"]["w"] or c["delay_kind"] != base["cfg"]["delay_kind"])) if on]
                 failing.append((r, obs, dims))
+        # the enumeration order must really have varied, or the independence from it was not exercised
+        ctx.count(f"distinct_enumeration_orders:{tag}", len(seen_enums))
+        enum_orders[tag] = len(seen_enums)
+        if len(seen_enums) < 2:
+            ctx.mismatch("enumeration not varied", f"project {tag}: the runs saw {len(seen_enums)} distinct directory enumeration order(s); "
+                         "independence from the enumeration order was not exercised", replay_payload(base["cfg"]))
         pure = {d[0] for _, _, d in failing if len(d) == 1}
         for r, obs, dims in sorted(failing, key=lambda x: len(x[2])):
             c = r["cfg"]
             dim = dims[0] if len(dims) == 1 else next((d for d in dims if d in pure), "configuration")
             text = {"hashseed": f"PYTHONHASHSEED={c['seed']}", "creation_order": f"file creation order {c['order_kind']}",
+                    "enumeration_order": f"directory enumeration order {c.get('enum')}",
                     "schedule": f"--max-workers {c['w']} with {c['delay_kind']} delays",
-                    "configuration": f"--max-workers {c['w']}, {c['delay_kind']} delays, seed {c['seed']}, creation order {c['order_kind']}"}[dim]
+                    "configuration": f"--max-workers {c['w']}, {c['delay_kind']} delays, seed {c['seed']}, creation order {c['order_kind']}, "
+                                     f"enumeration {c.get('enum')}"}[dim]
             what_differs = "report" if obs[0] != ref[0] else "files on disk"
             if obs[0] != ref[0] and obs[1] != ref[1]:
                 what_differs = "report and files on disk"
-            a = [[cs["path"] for cs in x["changeset"]] for x in base["report"]["results"]]
-            b = [[cs["path"] for cs in x["changeset"]] for x in r["report"]["results"]]
+            a = {x["codemod"]: [cs["path"] for cs in x["changeset"]] for x in base["report"]["results"] if x["changeset"]}
+            b = {x["codemod"]: [cs["path"] for cs in x["changeset"]] for x in r["report"]["results"] if x["changeset"]}
             violation("kf_result_depends_on_" + dim,
                       f"{what_differs} differ between the base run (w={base['cfg']['w']}, seed {base['cfg']['seed']}, no delays) and "
                       f"{text} (run {c['name']}): changeset paths per codemod {a} vs {b}",
@@ -684,6 +822,21 @@ def run(ctx: core.Ctx):
                       f"codemod {cid} under --max-workers {r['cfg']['w']} ({r['cfg']['delay_kind']} delays, seed {r['cfg']['seed']}): files or report "
                       f"order are not the per-file outcomes in input order; input {d['submit']}, reported {[cs['path'] for cs in rep['changeset']]}",
                       replay_payload(r["cfg"], trace=d["pool"], submitted=d["submit"], expected="per-file outcomes merged in input order"))
+    for r in results:
+        c = r["cfg"]
+        if c["project"] not in ("ps", "pso"):
+            continue
+        d = per_codemod(r).get(SAST_CODEMOD)
+        enum = next((e["files"] for e in r["events"] if e["ev"] == "enum"), None)
+        if not d or not d["submit"] or enum is None:
+            ctx.mismatch("generator coverage", f"run {c['name']}: the SAST-driven codemod {SAST_CODEMOD} processed no file", replay_payload(c))
+            continue
+        ctx.count("sast_driven_files:%d" % len(d["submit"]))
+        matched = [f for f in enum if f in set(d["submit"])]
+        order_cases.append(cpair(clist([cstr(f) for f in matched], "str"), clist([cstr(f) for f in d["submit"]], "str")))
+        order_meta.append((r, matched, d["submit"]))
+        ctx.case({"run": c["name"], "sast_task_order": d["submit"], "enumeration": matched},
+                 nontrivial_key=("sast-order", c["project"], tuple(matched)), sample=(c.get("enum") == "reverse"))
     if order_cases:
         bad = core.eval_bad_indices(ctx, "c11_order", IMPORTS, "order_case", order_cases, ["order_model_ok"])
         for i in bad["order_model_ok"]:
@@ -737,7 +890,8 @@ def run(ctx: core.Ctx):
     noted = set()
     from codemodder.registry import DEFAULT_EXCLUDED_CODEMODS
     for with_issues in (False, True):
-        runs = [r for r in results if r["cfg"]["role"] == "sast" and r["cfg"]["with_issues"] == with_issues]
+        runs = [r for r in results if r["cfg"].get("sast") and r["cfg"].get("with_issues") == with_issues
+                and (r["cfg"]["role"] == "sast" or r["cfg"]["project"] == "ps")]
         if not runs:
             continue
         ref = runs[0]
@@ -764,7 +918,7 @@ def run(ctx: core.Ctx):
                           f"SAST-mode selection order differs between PYTHONHASHSEED={ref['cfg']['seed']} and {r['cfg']['seed']}: "
                           f"position {first}: {ref['running'][first:first + 1]} vs {r['running'][first:first + 1]}",
                           replay_payload(r["cfg"], expected_order=ref["running"], observed_order=r["running"], base_seed=ref["cfg"]["seed"]))
-            elif norm_report(r["report"]) != norm_report(ref["report"]) or r["tree"] != ref["tree"]:
+            elif not with_issues and (norm_report(r["report"]) != norm_report(ref["report"]) or r["tree"] != ref["tree"]):
                 violation("kf_result_depends_on_hashseed", f"SAST-mode report or files differ between PYTHONHASHSEED={ref['cfg']['seed']} "
                           f"and {r['cfg']['seed']}", replay_payload(r["cfg"], base_seed=ref["cfg"]["seed"]))
             eps = next((e["eps"] for e in r["events"] if e["ev"] == "eps"), None)
@@ -802,6 +956,8 @@ def run(ctx: core.Ctx):
             if cls not in observed_classes and not (cls == "kf_task_order_depends_on_enumeration" and
                                                     observed_classes & {"kf_result_depends_on_hashseed", "kf_result_depends_on_creation_order"}):
                 ctx.tie_broken.append(f"proof: {thm} holds only in its refuted form ({tbl} = {neg}) but no run of this check reproduced the witness")
+    ctx.notes.append("distinct directory enumeration orders observed per project: " +
+                     ", ".join(f"{k}={v}" for k, v in sorted(enum_orders.items())))
     ctx.notes.append("wall of the CLI runs: max %.1fs, sum %.1fs" % (max(r["wall"] for r in results), sum(r["wall"] for r in results)))
 
 
@@ -813,8 +969,9 @@ def replay(ctx, body):
     delays = body["env"]["C11_DELAYS"]
     w = conf.get("w")
     cfg = {"name": "replay", "files": files, "order": body["creation_order"], "w": w, "delays": delays, "seed": int(body["env"]["PYTHONHASHSEED"]),
-           "sast": conf.get("sast"), "issues": body.get("issues"), "codemods": body.get("codemods")}
-    base = dict(cfg, name="replay_base", order=list(files), w=1, delays={}, seed=int(body.get("base_seed", 0)))
+           "sast": conf.get("sast"), "issues": body.get("issues"), "codemods": body.get("codemods"),
+           "enum": body["env"].get("C11_ENUM", "natural"), "argv_extra": body.get("argv_extra") or []}
+    base = dict(cfg, name="replay_base", order=list(files), w=1, delays={}, seed=int(body.get("base_seed", 0)), enum="natural")
     a, b = do_run(ctx, cfg), do_run(ctx, base)
     for tag, r in (("recorded configuration", a), ("base configuration", b)):
         pcs = per_codemod(r)
